@@ -17,6 +17,10 @@ def configs(ctx):
             # six validators: one crashed, one noisy Byzantine
             dict(name="crash6", stakes=[1, 1, 1, 1, 1, 1], byz=[4], byz_mode="spam", crashed=[3], crash_at=0,
                  seed=ctx.seed + 2, gst=1500, chaos=800, drop=30, run_ms=14000),
+            # an equivocating leader (two blocks per slot to different halves + vote equivocation): the windows
+            # of CORRECT leaders after stabilisation must still be finalized (parents chosen among the twins)
+            dict(name="equiv4", stakes=[2, 2, 2, 1], byz=[3], byz_mode="equivocate", seed=ctx.seed + 3, gst=1500,
+                 chaos=800, drop=50, run_ms=14000, require_fast=False),
         ]
     out = []
     k = 0
@@ -28,8 +32,9 @@ def configs(ctx):
             cand = [i for i in range(n) if stakes[i] * 5 < total]
             byz = [cand[(rep) % len(cand)]] if cand and rep % 3 != 0 else []
             crash = [c for c in [cand[(rep + 2) % len(cand)]] if c not in byz] if cand and rep % 2 == 1 else []
-            out.append(dict(name=f"n{n}_{rep}", stakes=stakes, byz=byz,
-                            byz_mode=("spam" if rep % 2 else "silent"), crashed=crash, crash_at=0,
+            mode = ("spam" if rep % 2 else "silent") if rep < 4 else "equivocate"
+            out.append(dict(name=f"n{n}_{rep}", stakes=stakes, byz=byz, require_fast=(mode != "equivocate"),
+                            byz_mode=mode, crashed=crash, crash_at=0,
                             seed=ctx.seed + 100 + k, gst=2000 + 400 * rep, chaos=800 + 400 * rep,
                             drop=20 * rep, dup=20, run_ms=4000 * n + 8000))
     return out
@@ -88,6 +93,7 @@ def run(ctx):
     judged_any = False
     for sc in configs(ctx):
         name = sc.pop("name")
+        fast = sc.pop("require_fast", True)
         stakes, byz, crashed = sc["stakes"], sc.get("byz", []), sc.get("crashed", [])
         trace, summary = S.run_sim(ctx, name, delta=100, **sc)
         ctx.traces += 1
@@ -98,7 +104,7 @@ def run(ctx):
         silent = byz if sc.get("byz_mode", "silent") == "silent" else []
         consts = (f"  Crashed = {{{', '.join(map(str, crashed))}}}\n"
                   f"  SilentByz = {{{', '.join(map(str, silent))}}}\n"
-                  f"  StableFrom = {sc['gst'] + sc['chaos'] + 1000}\n  EndT = {sc['run_ms']}\n  Margin = 3500\n  RequireFast = TRUE\n")
+                  f"  StableFrom = {sc['gst'] + sc['chaos'] + 1000}\n  EndT = {sc['run_ms']}\n  Margin = 3500\n  RequireFast = {'TRUE' if fast else 'FALSE'}\n")
         cfg_extra = consts
         # vacuity: some window must be judged
         import re
